@@ -200,8 +200,9 @@ type AccCfg struct {
 	LogonTimeout time.Duration
 	CloseTimeout time.Duration
 	Approve      func(*session.LogonSettings) error
-	Store        *Store          // shared by every session, as in the repository's tests
-	RawStore     *memory.Storage // if set: the bundled store itself, without the harness wrapper
+	Store        *Store                        // shared by every session, as in the repository's tests
+	RawStore     *memory.Storage               // if set: the bundled store itself, without the harness wrapper
+	NewCS        func() session.CounterStorage // if set: every accepted session gets a counter store of its own (the message store stays shared)
 	OnSession    func(as *AccSession)
 	Opts         func() *session.Opts
 }
@@ -256,6 +257,10 @@ func (w *World) StartAcceptor(cfg AccCfg) *AccSide {
 		cs, ms = cfg.RawStore, cfg.RawStore
 	}
 	as.A = simplefixgo.NewAcceptor(as.L, factory, cfg.WriteTimeout, func(h simplefixgo.AcceptorHandler) {
+		cs := cs
+		if cfg.NewCS != nil {
+			cs = cfg.NewCS()
+		}
 		s, err := session.NewAcceptorSession(cfg.Opts(), h, &session.LogonSettings{
 			LogonTimeout:  cfg.LogonTimeout,
 			CloseTimeout:  cfg.CloseTimeout,
